@@ -37,3 +37,23 @@ def settleOK (signer sent recv : String) (amt mn y : Nat) (changes : List (Strin
     decide (delta signer sent recv amt y k.1 k.2 = 0) || changes.any (fun c => c.1 = k.1 && c.2.1 = k.2))
 
 end Sif.Spec.C03
+
+namespace Sif.Spec.C03
+open Sif Sif.Clp
+
+/-- adjusted constant-product output for a rational amount (used to chain the two legs) -/
+def adjustedQ (toRowan : Bool) (X : Nat) (x : Rat) (Y : Nat) (r : Dec) : Rat :=
+  let raw := x * Y / (X + x)
+  if toRowan then raw / pmtpFactor r else raw * pmtpFactor r
+
+/-- the price bound of the property for a whole swap, judged on the pool depths before the swap:
+    single leg `y ≤ adj·(1−f) + 1`; external→external: the first leg's bound is fed into the second,
+    both legs at the fee rate `f` configured for the token the trader sells (one base unit per leg) -/
+def swapBoundOK (double toRowan : Bool) (X1 Y1 X2 Y2 x : Nat) (r f : Dec) (y : Nat) : Bool :=
+  if double then
+    let m : Rat := adjustedQ true X1 x Y1 r * (1 - decToRat f) + 1
+    decide ((y : Rat) ≤ adjustedQ false X2 m Y2 r * (1 - decToRat f) + 1)
+  else
+    decide ((y : Rat) ≤ adjustedQ toRowan X1 x Y1 r * (1 - decToRat f) + 1)
+
+end Sif.Spec.C03
